@@ -35,14 +35,16 @@ type FnSpec struct {
 	HasAssigns     bool
 	Trusted        bool
 	Inline         bool
+	NoFrame        bool     // the frame (assigns) of this function is not checked; it cannot be called by contract
 	Pure           bool     // the result is a function of the arguments and of the heap components named in Reads
 	Reads          []string // heap key prefixes a pure function may read (checked when the function itself is verified)
 	Lemma          bool
 	AssumedEnsures []*Clause // postconditions assumed at call sites and NOT proved (listed in the evidence as assumptions)
 	GhostEnsures   []*Clause // definitions of ghost state this function owns: assumed at call sites, nothing to prove
-	Safe           []string // property labels under which implicit obligations are checked
+	Safe           []string  // property labels under which implicit obligations are checked
 	Unroll         map[int]int
-	UnrollComplete map[int]int // complete unrolling (with an unwinding assertion) when the function is verified by itself
+	CountCalls     map[string]bool      // callees whose calls (from this function) are counted in ghost state
+	UnrollComplete map[int]int          // complete unrolling (with an unwinding assertion) when the function is verified by itself
 	AtCall         map[string][]*Clause // call-site assertions: callee name -> clauses evaluated just before the call
 	PureFuncValues bool                 // calls through function-typed fields are assumed side-effect free (user handlers)
 	Thorough       bool                 // checked only in the thorough tier
@@ -124,16 +126,16 @@ type AtInvoke struct {
 }
 
 type Contracts struct {
-	interf    []*InterfDecl
+	interf       []*InterfDecl
 	ghostWriters []string
-	atInvoke  []*AtInvoke
-	byFn      map[*ssa.Function]*FnSpec
-	list      []*FnSpec
-	ifaces    map[string]*IfaceSpec
-	shared    []*SharedDecl
-	lockChans []string // field names of 1-slot channels used as mutexes
-	errs      []string
-	fnIndex   map[string]*ssa.Function // "pkgname:RelString" -> fn
+	atInvoke     []*AtInvoke
+	byFn         map[*ssa.Function]*FnSpec
+	list         []*FnSpec
+	ifaces       map[string]*IfaceSpec
+	shared       []*SharedDecl
+	lockChans    []string // field names of 1-slot channels used as mutexes
+	errs         []string
+	fnIndex      map[string]*ssa.Function // "pkgname:RelString" -> fn
 }
 
 func (c *Contracts) ForFn(fn *ssa.Function) *FnSpec {
@@ -218,7 +220,7 @@ func (c *Contracts) spec(pkg *ssa.Package, target string, pos string) *FnSpec {
 	if s, ok := c.byFn[fn]; ok {
 		return s
 	}
-	s := &FnSpec{Target: pkg.Pkg.Name() + "." + target, Fn: fn, Invariants: map[int][]*Clause{}, Decreases: map[int]*Clause{}, Unroll: map[int]int{}, UnrollComplete: map[int]int{}, Pos: pos}
+	s := &FnSpec{Target: pkg.Pkg.Name() + "." + target, Fn: fn, Invariants: map[int][]*Clause{}, Decreases: map[int]*Clause{}, Unroll: map[int]int{}, UnrollComplete: map[int]int{}, CountCalls: map[string]bool{}, Pos: pos}
 	c.byFn[fn] = s
 	c.list = append(c.list, s)
 	return s
@@ -307,6 +309,16 @@ func (c *Contracts) parseFile(prog *ssa.Program, p *packages.Package, sp *ssa.Pa
 				}
 				if s, cl := c.spec(sp, fs[1], pos), clause(nil); s != nil && cl != nil {
 					s.GhostEnsures = append(s.GhostEnsures, cl)
+				}
+			case "count-calls":
+				// count-calls <target> <callee> ...: ghost counters of the calls the target makes to the named callees
+				if !need(3) {
+					continue
+				}
+				if s := c.spec(sp, fs[1], pos); s != nil {
+					for _, n := range fs[2:] {
+						s.CountCalls[strings.Trim(n, ",")] = true
+					}
 				}
 			case "ghost-writer":
 				// ghost-writer <Type>: objects of this type own a ghost byte stream that is empty when they are allocated
@@ -440,6 +452,13 @@ func (c *Contracts) parseFile(prog *ssa.Program, p *packages.Package, sp *ssa.Pa
 							s.Reads = append(s.Reads, r)
 						}
 					}
+				}
+			case "noframe":
+				if !need(2) {
+					continue
+				}
+				if s := c.spec(sp, fs[1], pos); s != nil {
+					s.NoFrame = true
 				}
 			case "inline":
 				if !need(2) {
